@@ -43,7 +43,7 @@ pub struct IngestCfg {
 // Forgeries
 // ------------------------------------------------------------------------------------------------
 
-pub const MUTATIONS: [&str; 17] = [
+pub const MUTATIONS: [&str; 18] = [
     "header_bit_flip",
     "body_bit_flip",
     "body_truncate",
@@ -61,6 +61,7 @@ pub const MUTATIONS: [&str; 17] = [
     "signature_other_op",
     "resign_other_key_keep_author",
     "author_signed_malformed",
+    "weak_key_signature",
 ];
 
 fn fault_name(kind: &str) -> &'static str {
@@ -81,6 +82,7 @@ fn fault_name(kind: &str) -> &'static str {
         "signature_strip" => "tamper.signature_strip",
         "signature_other_op" => "tamper.signature_other_op",
         "resign_other_key_keep_author" => "tamper.resign",
+        "weak_key_signature" => "tamper.weak_key_signature",
         _ => "byzantine_op(author_signed_malformed)",
     }
 }
@@ -167,11 +169,35 @@ fn forge(kind: &'static str, op: &Op, other: &Op, world: &LogWorld) -> Option<Op
             h.sign(&foreign);
             h.verifying_key = author;
         }
+        "weak_key_signature" => {
+            // Nobody holds a key here: the claimed author is the small-order point (0, 1) and the
+            // "signature" is R = (0, 1), s = 0, which satisfies the (non-strict) ed25519
+            // verification equation for every message. Only strict verification rejects it.
+            let mut pk = [0u8; 32];
+            pk[0] = 1;
+            let Ok(weak) = p2panda_core::VerifyingKey::from_bytes(&pk) else {
+                ctx::probe("weak_key_rejected_by_constructor");
+                return None;
+            };
+            let mut sig = [0u8; 64];
+            sig[0] = 1;
+            h.verifying_key = weak;
+            h.seq_num = 0;
+            h.backlink = None;
+            h.extensions.prune = false;
+            h.signature = Some(p2panda_core::identity::Signature::from_bytes(&sig));
+        }
         _ => {
             // The author itself (has the key) signs a header that is internally inconsistent.
             let key = world.keys.iter().find(|k| k.verifying_key() == h.verifying_key)?;
-            match ctx::choose("forge.malformed", 5) {
+            match ctx::choose("forge.malformed", 6) {
                 0 => h.version = 2,
+                5 => {
+                    // a body attached to a header that declares no payload at all
+                    h.payload_size = 0;
+                    h.payload_hash = None;
+                    body = Some(Body::from(b"smuggled".to_vec()));
+                }
                 1 => {
                     h.payload_size = 0; // hash without size
                     h.payload_hash = Some(Hash::digest(b"y"));
